@@ -80,6 +80,7 @@ func snapshot(c *chainx.Chain, r *rec) {
 			r.PanicS += " | snapshot: " + fmt.Sprint(x)
 		}
 	}()
+	r.Deleted, r.FixEB, r.FixETS, r.Win = []int64{}, []fixr{}, []fixr{}, []winr{}
 	ctx := c.TS.Ctx
 	k := c.TS.Keepers.Epochstorage
 	h := uint64(ctx.BlockHeight())
